@@ -11,7 +11,7 @@ import (
 
 func init() {
 	register("C16", runC16,
-		"Decides structural necessary conditions of 'priority, then FIFO, decides between equal workloads of a queue': every registered job comparator is antisymmetric on the finite abstraction of its comparisons and never derives its sign from a difference that can overflow; the priority comparator orders higher priority first; the elastic comparator is neutral between workloads of the same min-available class and its class does not depend on map iteration order; Session.JobOrderFn lets the first non-zero comparator decide un-negated and otherwise orders by creation time, then UID, as a strict total order; the leaf heap of a non-victim JobsOrderByQueues uses that order un-negated, every ready pending job of an existing leaf queue is pushed, the depth-limited heap evicts by comparison, and allocate attempts every popped job.",
+		"Decides structural necessary conditions of 'priority, then FIFO, decides between equal workloads of a queue': every registered job comparator is antisymmetric on the finite abstraction of its comparisons and never derives its sign from a difference that can overflow; the priority comparator orders higher priority first; the elastic comparator is neutral between workloads of the same min-available class and its class does not depend on map iteration order; Session.JobOrderFn lets the first non-zero comparator decide un-negated and otherwise orders by creation time, then UID, as a strict total order; the leaf heap of a non-victim JobsOrderByQueues uses that order un-negated, every ready pending job of an existing leaf queue is pushed, the depth-limited heap evicts by comparison, and allocate attempts every popped job. Also: the scan that picks the item to evict from a full heap covers every leaf slot [n/2, n-1]; the per-job scratch fields on the shared topology tree are given fresh values before the per-job evaluation reads them.",
 		"run-time staleness of the heaps (needsReorder / Fix), cross-queue interleaving, and whether two workloads are 'identical' for the placement")
 }
 
